@@ -177,7 +177,18 @@ def run(impl_self_types, full=True):
         'qbice_stable_type_id = { path = "%s/crates/stable_type_id" }\n' % root)
     if not os.path.exists(os.path.join(d, "Cargo.lock")):
         shutil.copy(os.path.join(root, "Cargo.lock"), os.path.join(d, "Cargo.lock"))
-    env = dict(os.environ, CARGO_NET_OFFLINE="true", CARGO_TARGET_DIR=os.path.join(extract.CACHE, "target-witness-%s" % tag), CARGO_INCREMENTAL="0")
+    target = os.path.join(extract.CACHE, "target-witness-%s" % tag)
+    # cargo trusts mtimes; a tree restored with its old mtimes (rsync -a, cp -p) would be taken for fresh.  Key the
+    # freshness on the content hash of the tree instead: on any change forget the workspace crates' fingerprints.
+    h = extract.tree_hash(root) + hashlib.sha256(src.encode()).hexdigest()
+    stamp = os.path.join(d, "TREE_HASH")
+    if not os.path.exists(stamp) or open(stamp).read() != h:
+        import glob
+        for f in glob.glob(os.path.join(target, "debug", ".fingerprint", "qb*")):
+            shutil.rmtree(f, ignore_errors=True)
+        if os.path.exists(stamp):
+            os.remove(stamp)
+    env = dict(os.environ, CARGO_NET_OFFLINE="true", CARGO_TARGET_DIR=target, CARGO_INCREMENTAL="0")
     for k in ("RUSTFLAGS", "RUSTC_WRAPPER", "RUSTC_WORKSPACE_WRAPPER"):
         env.pop(k, None)
     r = subprocess.run(["cargo", "+nightly", "check", "--offline", "--message-format=json", "-q"], cwd=d, env=env,
@@ -202,5 +213,8 @@ def run(impl_self_types, full=True):
     if r.returncode != 0 and not failures:
         raise EngineError("the C14 witness crate does not type-check for a reason other than a failed assertion:\n%s\n%s" % (
             "\n".join("%s: %s" % o for o in other[:5]), r.stderr[-3000:]))
+    if r.returncode == 0:
+        with open(stamp, "w") as fh:
+            fh.write(h)
     n_assert = src.count("const _: () = assert!")
     return len(tys), n_assert, sorted(set(failures))
